@@ -2,6 +2,8 @@ import PydapModel.Sexp
 import PydapModel.Dmr
 import PydapModel.Dap4
 import Driver.Dap4
+import Driver.Slice
+import PydapModel.Dap4Index
 namespace Pydap.Driver
 open Pydap Sexp Pydap.Dmr
 
@@ -89,9 +91,14 @@ def handleDmr : List Sexp → Option String
     match getAtomicAttr x with
     | .ok (n, v) => pure ("(ok " ++ optStr n ++ " " ++ attrValStr v ++ ")")
     | .error e => pure (dmrErr e)
-  | [atom "dmr-tag", d] => do
+  | [atom "dmr-tag", atom k, d] => do
     let d ← asStr? d
-    pure (strToHex (dmrTypeTag d))
+    pure (strToHex (dmrTypeTag (k.toList.headD ' ') d))
+  | [atom "dap4-ce", id, list shape, list idx] => do
+    let id ← asStr? id
+    let sh ← shape.mapM asNat?
+    let ix ← idx.mapM sexpToIdx?
+    pure (strToHex (Dap4.proxy4Request id sh ix))
   | [atom "dap4-response", x, resp] => do
     -- UNPACKDAP4DATA: the DMR chunk's element tree is supplied by the harness (ElementTree is trusted),
     -- the variables are decoded in the order the DMR declares them
